@@ -32,7 +32,8 @@ from bacpypes.local.device import LocalDeviceObject
 from bacpypes.service.cov import ChangeOfValueServices, Subscription
 from bacpypes.service.object import ReadWritePropertyServices
 from bacpypes.object import AnalogValueObject, BinaryValueObject, MultiStateValueObject, PulseConverterObject
-from bacpypes.apdu import SubscribeCOVRequest, SimpleAckPDU, ReadPropertyRequest, ReadPropertyACK
+from bacpypes.apdu import SubscribeCOVRequest, SubscribeCOVPropertyRequest, SimpleAckPDU, ReadPropertyRequest, ReadPropertyACK
+from bacpypes.basetypes import PropertyReference
 from bacpypes.primitivedata import Real, Unsigned
 from bacpypes.basetypes import StatusFlags, BinaryPV, COVSubscription
 from bacpypes.constructeddata import ListOf
@@ -123,6 +124,8 @@ class Rig:
             self.dev.add_object(o)
             self.objs.append(o)
         self.subs = [Stack(self, "s%d" % (k + 1), 11 + k, 11 + k, self.vlan) for k in range(nsubs)]
+        # a station that is none of the subscribers (it uses SubscribeCOVProperty; what it receives is its own business)
+        self.stranger = Stack(self, "x", 41, 41, self.vlan)
         self.out = [[] for _ in range(nsubs)]
         self.alist, self.alen = [], NONE
         self.problems = []          # things the projection could not express (reported as machinery / deviation)
@@ -167,6 +170,8 @@ class Rig:
 
     # ---- observations ---------------------------------------------------------------------------------------
     def on_note(self, stack, apdu, confirmed):
+        if stack is self.stranger:
+            return
         s = self.subs.index(stack) + 1
         o = apdu.monitoredObjectIdentifier[1]
         vals = {}
@@ -242,6 +247,16 @@ class Rig:
             self.loop(keep=cov)
         elif op == "drain":
             self.loop()
+        elif op == "stranger":
+            for cancel in (False, True):
+                req = SubscribeCOVPropertyRequest(subscriberProcessIdentifier=77, monitoredObjectIdentifier=self.oid(ev["o"]),
+                                                  monitoredPropertyIdentifier=PropertyReference(propertyIdentifier="presentValue"))
+                if not cancel:
+                    req.issueConfirmedNotifications = False
+                    req.lifetime = 60
+                req.pduDestination = self.dev.address
+                self.stranger.request_io(IOCB(req))
+                self.loop()
         elif op == "tick":
             vt.now = (self.ticks(vt.now) + ev["v"]) / float(self.tps)
         elif op == "wpv":
@@ -363,9 +378,12 @@ CONFIGS = {
                    procs=[1], lifetimes=[0, 1], confs=[False], scale=1.0, tps=1),
     # random timelines: four object kinds, 3 subscribers x 2 process ids; two groups with different grids
     "t1": dict(kinds=["av", "bv", "msv", "pc"], inc=[2, 0, 0, 3], vals=[[0], [0], [1], [0]], initpv=[10, 0, 1, 20],
-               flags=[0], nsubs=3, procs=[1, 2], lifetimes=[0], confs=[True], scale=1.0, tps=1),
+               flags=[0], nsubs=3, procs=[1, 2], lifetimes=[0], confs=[True], scale=1.0, tps=1, strangers=True),
     "t2": dict(kinds=["av", "bv", "msv", "pc"], inc=[5, 0, 0, 1], vals=[[0], [0], [1], [0]], initpv=[40, 1, 3, 7],
-               flags=[0], nsubs=3, procs=[1, 2], lifetimes=[0], confs=[True], scale=0.25, tps=4),
+               flags=[0], nsubs=3, procs=[1, 2], lifetimes=[0], confs=[True], scale=0.25, tps=4, strangers=True),
+    # the subs slice with a station outside Subs using SubscribeCOVProperty on the same object
+    "subs_x": dict(kinds=["bv"], inc=[0], vals=[[0, 1]], initpv=[0], flags=[0], nsubs=2,
+                   procs=[1], lifetimes=[0, 1], confs=[True, False], scale=1.0, tps=1, strangers=True),
 }
 
 
@@ -377,7 +395,7 @@ def constants_of(c, maxlevel=0, dev=False):
               "Subs": tla_set(range(1, c["nsubs"] + 1)), "Procs": tla_set(c["procs"]),
               "Lifetimes": tla_set(c["lifetimes"]), "Confs": tla_set(tla_bool(b) for b in c["confs"]),
               "TickSteps": "{1}", "TPS": str(c["tps"]), "MaxLevel": str(maxlevel),
-              "Dev_RenewKeepsOldParams": tla_bool(dev)}
+              "Dev_RenewKeepsOldParams": tla_bool(dev), "Strangers": tla_bool(c.get("strangers", False))}
     return defs, consts
 
 
@@ -821,6 +839,11 @@ def timeline(rig, rng, c, length):
                 opts += [gap, gap, max(1, gap - 1), gap + 1]
             for x in tick_to(now + max(1, rng.choice(opts))):
                 yield x
+        elif r < 0.95 and c.get("strangers"):
+            st = rig.proj()
+            busy = [o for o in range(1, nobj + 1) if st["det"][o - 1] and st["subs"][o - 1]]
+            if busy and not rig._due_subscription_tasks():
+                yield ev("stranger", o=rng.choice(busy))
         else:
             yield ev("read", s=rng.randint(1, ns))
     # flush, then advance time across every remaining expiry, changing values all along
@@ -872,13 +895,14 @@ def main(tier, seed):
     ]
     chk.extra["level_note"] = ("exhaustive TLC on the full configuration of the design row only to depth %d (about x8 states per "
                                "level; depth 8 is out of budget) -- depth 8..10 is reached on the slices pair / subs / crit, depth 12 on "
-                               "the full configuration by simulation; SubscribeCOVProperty, covPeriod > 0, lost frames / unanswered "
+                               "the full configuration by simulation; SubscribeCOVProperty subscriptions of their own (only their interference with SubscribeCOV subscribers is covered: Stranger), covPeriod > 0, lost frames / unanswered "
                                "confirmed notifications and omitted lifetimes are outside this check" % (5 if thorough else 4))
     # D: the design satisfies the properties
     run_mc(chk, "full", 5 if thorough else 4)
     run_mc(chk, "pair", 8 if thorough else 6)
     run_mc(chk, "subs", 10 if thorough else 8)
     run_mc(chk, "crit", 10 if thorough else 8)
+    run_mc(chk, "subs_x", 8 if thorough else 6)
     # beyond the exhaustive bound of the full configuration: random behaviours of depth 12
     run_mc(chk, "full", 12, simulate=40000 if thorough else 2000, seed=seed + 1)
     # sanity / vacuity: the named deviation (F11) must be caught by the properties
